@@ -157,4 +157,23 @@ pub mod verif_exports {
     pub use crate::atomic_arena::Ref;
     pub use crate::sharded_set::ShardedSet;
     pub use crate::small_bytes::SmallBytes;
+
+    /// "This rare branch was reached" counters, read by the simulator.
+    pub static PROBES: [std::sync::atomic::AtomicU64; 5] = [
+        std::sync::atomic::AtomicU64::new(0),
+        std::sync::atomic::AtomicU64::new(0),
+        std::sync::atomic::AtomicU64::new(0),
+        std::sync::atomic::AtomicU64::new(0),
+        std::sync::atomic::AtomicU64::new(0),
+    ];
+    pub const PROBE_ARENA_SLOW_PATH: usize = 0;
+    pub const PROBE_ARENA_SLOW_PATH_LOST_RACE: usize = 1;
+    pub const PROBE_SHARD_TRY_WRITE_FAILED: usize = 2;
+    pub const PROBE_SHARD_FOUND_UNDER_READ: usize = 3;
+    pub const PROBE_SHARD_FOUND_UNDER_WRITE: usize = 4;
+
+    #[inline]
+    pub fn probe(which: usize) {
+        PROBES[which].fetch_add(1, std::sync::atomic::Ordering::Relaxed);
+    }
 }
